@@ -344,9 +344,11 @@ def run_polars_depth(rep):
         for vk in variants:
             for is_lazy in (False, True):
                 for ctxd in (None, "schemaOnly", "dataOnly", "schemaAndData"):
-                    cases.append({"mode": "polars", "isLazy": is_lazy, "entry": entry, "violation": vk,
-                                  "ctx": {"enabled": True, "depth": ctxd, "cache": False, "keep": False},
-                                  "glob": {"enabled": True, "depth": None, "cache": False, "keep": False}})
+                    # the process-wide depth (PANDERA_VALIDATION_DEPTH): unset, or set to any of the three
+                    for globd in ((None, "schemaOnly", "dataOnly", "schemaAndData") if vk == "check" else (None,)):
+                        cases.append({"mode": "polars", "isLazy": is_lazy, "entry": entry, "violation": vk,
+                                      "ctx": {"enabled": True, "depth": ctxd, "cache": False, "keep": False},
+                                      "glob": {"enabled": True, "depth": globd, "cache": False, "keep": False}})
     ans = run_driver("C18", [{k: v for k, v in c.items() if k not in ("entry", "violation")} for c in cases])
     for c, a in zip(cases, ans):
         mk, bad = variants[c["violation"]]
@@ -355,22 +357,31 @@ def run_polars_depth(rep):
         kw = {}
         if c["ctx"]["depth"]:
             kw["validation_depth"] = ValidationDepth(DEPTHS[c["ctx"]["depth"]])
-        with warnings.catch_warnings():
-            warnings.simplefilter("ignore")
-            with config_context(**kw):
-                try:
-                    schema.validate(obj)
-                    rejected = False
-                except Exception:  # noqa: BLE001
-                    rejected = True
+        import pandera.config as cfgmod_
+        saved_depth = cfgmod_.CONFIG.validation_depth
+        cfgmod_.CONFIG.validation_depth = ValidationDepth(DEPTHS[c["glob"]["depth"]]) if c["glob"]["depth"] else None
+        try:
+            with warnings.catch_warnings():
+                warnings.simplefilter("ignore")
+                with config_context(**kw):
+                    try:
+                        schema.validate(obj)
+                        rejected = False
+                    except Exception:  # noqa: BLE001
+                        rejected = True
+        finally:
+            cfgmod_.CONFIG.validation_depth = saved_depth
         data_checks_run = a in ("schemaAndData", "dataOnly")
         rep.case(c)
         rep.count("polars-depth")
-        documented = (c["ctx"]["depth"] in ("schemaAndData", "dataOnly")) or (c["ctx"]["depth"] is None and not c["isLazy"])
+        # documented precedence: the context's depth, else the process-wide one, else the default of the container kind
+        eff = c["ctx"]["depth"] or c["glob"]["depth"]
+        documented = (eff in ("schemaAndData", "dataOnly")) or (eff is None and not c["isLazy"])
         if rejected != documented:
             rep.property_failure(c, f"polars {c['entry']} on a {'LazyFrame' if c['isLazy'] else 'DataFrame'} "
                                     f"({c['violation']} violation) with context depth "
-                                    f"{c['ctx']['depth']}: data check ran={rejected}, documented={documented}")
+                                    f"{c['ctx']['depth']} and process-wide depth {c['glob']['depth']}: data check "
+                                    f"ran={rejected}, documented={documented}")
         elif data_checks_run != rejected:
             rep.correspondence_break(c, "polarsDepth model differs from the implementation")
 
